@@ -53,6 +53,8 @@ def build_file(path, residues, vel, title, box):
         for an in names:
             p = (round(0.001 * pos + 0.5, 3), round(0.002 * (pos % 977) - 0.7, 3), round(-0.003 * (pos % 331), 3))
             v = (round(0.0001 * pos, 4), round(-0.0002 * (pos % 50), 4), 0.5) if vel else None
+            if vel and pos % 7 == 3:
+                v = (0.0, 0.0, 0.0)          # an atom at rest still has a velocity record
             recs.append((rid, rn, an, pos + 1, p) + ((v,) if vel else ()))
             pos += 1
     synth.write_gro(path, recs, box=box, title=title)
